@@ -40,15 +40,18 @@ SplitRanges(t, sep) ==
   IN [j \in 1..k + 1 |-> << IF j = 1 THEN 0 ELSE occ[j - 1] - 1 + Len(sep),
                             IF j = k + 1 THEN Len(t) ELSE occ[j] - 1 >>]
 
-\* str.splitlines() restricted to texts whose only line boundary is "\n" (10):
-\* a trailing empty piece is dropped; keepends keeps the newline with its line
-SplitlinesRanges(t, keepends) ==
-  LET nl == <<10>>
-      rs == SplitRanges(t, nl)
-      k == Len(rs)
-      core == IF rs[k][1] = rs[k][2] THEN SubSeq(rs, 1, k - 1) ELSE rs
-  IN [j \in 1..Len(core) |->
-        <<core[j][1], IF keepends = 1 /\ j < k THEN core[j][2] + 1 ELSE core[j][2]>>]
+\* str.splitlines([keepends]) (library reference, "str.splitlines": line boundaries are LF, CR, CR LF, VT, FF, FS, GS,
+\* RS, NEL, LINE SEPARATOR, PARAGRAPH SEPARATOR; no empty piece after a final boundary) as <<start, end>> half-open
+\* 0-based ranges into t; keepends keeps the boundary with its line
+LineBreaks == {10, 13, 11, 12, 28, 29, 30, 133, 8232, 8233}
+RECURSIVE LinesFrom(_, _, _, _)
+LinesFrom(t, i, start, keepends) ==       \* i: 1-based position examined next; start: 0-based start of the open line
+  IF i > Len(t) THEN (IF start < Len(t) THEN << <<start, Len(t)>> >> ELSE <<>>)
+  ELSE IF t[i] \in LineBreaks
+       THEN LET n == IF t[i] = 13 /\ i < Len(t) /\ t[i + 1] = 10 THEN 2 ELSE 1
+            IN << <<start, IF keepends = 1 THEN i - 1 + n ELSE i - 1>> >> \o LinesFrom(t, i + n, i - 1 + n, keepends)
+       ELSE LinesFrom(t, i + 1, start, keepends)
+SplitlinesRanges(t, keepends) == LinesFrom(t, 1, 0, keepends)
 
 Ranges(s, rs) == [j \in 1..Len(rs) |-> SubSeq(s, rs[j][1] + 1, rs[j][2])]
 =============================================================================
